@@ -5,6 +5,7 @@ import (
 	"github.com/brutella/hc/crypto"
 	"github.com/brutella/hc/log"
 	"net"
+	"sync"
 	"time"
 
 	"bufio"
@@ -30,6 +31,11 @@ type Connection struct {
 
 	// Used to buffer the encrypted bytes of the connection
 	buffered *bufio.Reader
+
+	// Serializes writes. The frames of a message must be encrypted and written to the
+	// connection in one piece, otherwise the frame counters get out of order when
+	// responses and event notifications are written by different goroutines.
+	writeMutex sync.Mutex
 }
 
 // NewConnection returns a hap connection.
@@ -122,6 +128,9 @@ func (con *Connection) DecryptedRead(b []byte) (int, error) {
 // Write writes bytes to the connection.
 // The written bytes are encrypted when possible.
 func (con *Connection) Write(b []byte) (int, error) {
+	con.writeMutex.Lock()
+	defer con.writeMutex.Unlock()
+
 	if con.getEncrypter() != nil {
 		return con.EncryptedWrite(b)
 	}
